@@ -262,8 +262,9 @@ class Normalizer:
             return True                      # trait impl method: the trait call is the event
         if mir.derive_generated(cb.span):
             return True
-        if callee in self.kept_roles:
-            return True
+        guardish = bool(re.match(r"^(bool|std::result::Result<\(\), .*>|std::option::Option<\(\)>|std::option::Option<messages::HtlcAcceptedResponse>)$", cb.ret_ty or ""))
+        if callee in self.kept_roles and not (guardish and not self.effectful(callee)):
+            return True                      # (a pure predicate on the table entry is no event: it is spliced like any guard helper)
         hb = F.by_cdef.get(host_root)
         if hb is None or hb.span.get("f") != cb.span.get("f"):
             return True                      # cross-file call: a module's API, not an extracted helper
@@ -373,13 +374,26 @@ class Normalizer:
                 if t["k"] != "switch" or cur.blocks[W].get("threaded"):
                     continue
                 c = lib.decode_switch(cur, W)
-                if c is None or c.kind != "enum" or c.place is None or [p for p in c.place["p"] if p["k"] != "deref"]:
+                if c is None or c.kind not in ("enum", "bool") or c.place is None:
+                    continue
+                if c.kind == "bool":
+                    plan = self._thread_plan_bool(cur, W, c.place, c)
+                    if plan:
+                        for (P, chain, arm_target, pre) in plan:
+                            self._apply_thread(j, P, chain, W, arm_target, pre)
+                        done = True
+                        break
+                    continue
+                if [p for p in c.place["p"] if p["k"] != "deref"]:
                     continue
                 L = c.place["l"]
-                # only the discriminant read (and storage markers) before the switch
-                if any(s["k"] == "assign" and not (s["rv"]["k"] == "discr") for s in cur.blocks[W]["s"]):
-                    continue
-                plan = self._thread_plan(cur, W, L, c)
+                if False:
+                    pass
+                else:
+                    # only the discriminant read (and storage markers) before the switch
+                    if any(s["k"] == "assign" and not (s["rv"]["k"] == "discr") for s in cur.blocks[W]["s"]):
+                        continue
+                    plan = self._thread_plan(cur, W, L, c)
                 if not plan:
                     continue
                 for (P, chain, arm_target, pre) in plan:
@@ -388,6 +402,41 @@ class Normalizer:
                 break
             if not done:
                 break
+
+    def _thread_plan_bool(self, cur, W, L, c):
+        """a bool that is `true` here and `false` there (the returns of a spliced predicate helper) and then branched on"""
+        import lib
+        srcs = lib.bool_sources_of_place(cur, L)
+        if not srcs or len(srcs) < 2 or all(v is None for v, _b in srcs) or len({b for _v, b in srcs}) != len(srcs):
+            return None
+        ft = lib.bool_edge_targets(cur, W)
+        if ft is None or ft[0] == ft[1]:
+            return None
+        plan = []
+        for v, P in srcs:
+            if v is None or P == W or P not in cur.reachable or cur.blocks[P].get("threaded_from") == W:
+                continue
+            chain = []
+            x = P
+            ok = False
+            for _ in range(16):
+                succ = cur.succ[x]
+                if len(succ) != 1:
+                    break
+                x = succ[0]
+                if x in chain or x == P:
+                    break
+                chain.append(x)
+                if x == W:
+                    ok = True
+                    break
+                if cur.blocks[x]["t"]["k"] == "yield":
+                    break
+            if not ok:
+                continue
+            opv = (not v) if c.negated else v
+            plan.append((P, chain, ft[1] if opv else ft[0], (None, "true" if v else "false")))
+        return plan
 
     def _thread_plan(self, cur, W, L, c):
         """[(building block P, chain of blocks P->..->W (exclusive P, inclusive W), target arm, extra statements)]"""
